@@ -199,7 +199,10 @@ class Constraints(object):
                                          k_genuine_vec[i],
                                          k_impostor_vec[i])
 
-    return triplets
+    # the indices above refer to the labeled samples only: map them back to
+    # positions in the array the caller passed
+    known_labels_idx, = np.where(known_labels_mask)
+    return known_labels_idx[triplets]
 
   def _pairs(self, n_constraints, same_label=True, max_iter=10,
              random_state=np.random):
